@@ -117,6 +117,13 @@ def big_specs(ctx, n):
             m = big_model(rng, nw, nc, T, True, beta)
             specs.append(mk_pair(len(specs), "degenerate-stochastic", m, laws.degenerate_to_deterministic(m), flat=True, tol=tol,
                                  label=f"large: {nw}x2 states, T={T}"))
+    # one continuous state grid with more nodes than 2^16 (positions, ranks and flat indices beyond 16 bits)
+    r2 = ctx.rng("very-long-grid")
+    for _ in range(max(1, n // 40)):
+        nw = r2.choice([70001, 66001])
+        m = big_model(r2, nw, 5, 2, False, r2.choice([F(1, 2), F(3, 4)]))
+        specs.append(mk_pair(len(specs), "horizon-shift", m, laws.with_horizon(m, 3), pairs=[[0, 1], [1, 2]], flat=True, tol=tol,
+                             label=f"very long grid: {nw}x2 states, T=2, k=1"))
     return specs
 
 
